@@ -166,7 +166,7 @@ pub fn run(rep: &mut Report, tier: &str) {
     let seed = rep.seed;
     rep.rule = "chunk documents (1-3 package level elements of the whole-specification document of a random source version, values varied) that load strictly under their own version, single file and as one of two files of a model; for each of the 21 targets: check_version_compatibility (error list, mask) and set_version on a duplicate are compared with strict loading of the serialized text relabelled to the target. Distinct by (document, target); non-trivial = every pair".into();
     rep.assumptions.push("precondition: the document loads strictly under its own version (others are skipped and counted)".into());
-    let n = if thorough { 40_000 } else { 1_500 };
+    let n = if thorough { 80_000 } else { 8_000 };
     let shards = 64;
     let per = n / shards;
     run_shards(rep, shards, cpu_count(), 64, |shard, sub| {
